@@ -10,7 +10,7 @@ from valjean.cosette.depgraph import DepGraph
 from . import runtime
 
 _MODS = None
-OUTCOMES = ('ok', 'raise', 'fail', 'none', 'notpair', 'badstatus', 'badupdate', 'triple', 'clobber', 'clobber-next')
+OUTCOMES = ('ok', 'raise', 'fail', 'none', 'notpair', 'badstatus', 'badupdate', 'triple', 'clobber', 'clobber-next', 'badnested')
 FINAL = (TaskStatus.DONE, TaskStatus.FAILED, TaskStatus.SKIPPED)
 
 
@@ -66,6 +66,10 @@ class Probe(Task):
             return 42, TaskStatus.DONE
         if out == 'triple':
             return upd, TaskStatus.DONE, 0
+        if out == 'badnested':
+            # a mapping all the way down, but it asks to merge a dictionary into a value that is not one (the start clock):
+            # apply() fails half-way
+            return {self.name: {'extra': {'k': 0}, 'start_clock': {'x': 1}}, 'glob': {self.name: self.version}}, TaskStatus.DONE
         if out == 'clobber-next':
             # ... or the entry of ANOTHER task (t<i+1>, cyclically)
             num = int(self.name[1:])
